@@ -687,12 +687,13 @@ func genPath(t *rapid.T) pathCase {
 		h = rapid.IntRange(1, 10).Draw(t, "h2")
 	}
 	tile := tlog.Tile{H: h, L: rapid.IntRange(-1, 63).Draw(t, "l")}
-	nb := rapid.IntRange(0, 62).Draw(t, "nbits")
+	nb := rapid.IntRange(0, 63).Draw(t, "nbits")
 	if nb > 0 {
-		tile.N = rapid.Int64Range(0, int64(1)<<uint(nb)-1).Draw(t, "n")
+		tile.N = rapid.Int64Range(0, int64(1)<<uint(nb-1)-1+int64(1)<<uint(nb-1)).Draw(t, "n")
 	}
 	if rapid.IntRange(0, 3).Draw(t, "nedge") == 0 {
-		tile.N = []int64{0, 999, 1000, 1001, 999999, 1000000, 1<<62 - 1, 1234067}[rapid.IntRange(0, 7).Draw(t, "ne")]
+		// (the last entries: the largest tile numbers an int64 holds, where "times 1000 plus the next group" is about to overflow)
+		tile.N = []int64{0, 999, 1000, 1001, 999999, 1000000, 1<<62 - 1, 1234067, 1 << 62, 1<<63 - 1, 1<<63 - 2, 9223372036854775000, 9223372036854774999, 9223372036854775806 - 999, 1000000000000000000, 999999999999999999}[gen.Uniform(t, 16, "ne")]
 	}
 	tile.W = 1 << uint(h)
 	if rapid.Bool().Draw(t, "partial") {
@@ -739,7 +740,7 @@ func checkTilePath(c pathCase) pbt.Result {
 	r := pbt.Result{}
 	if c.Str == "" {
 		t := c.T
-		if t.H < 1 || t.H > 30 || t.L < -1 || t.L > 63 || t.N < 0 || t.N >= 1<<62 || t.W < 1 || t.W > 1<<uint(t.H) {
+		if t.H < 1 || t.H > 30 || t.L < -1 || t.L > 63 || t.N < 0 || t.W < 1 || t.W > 1<<uint(t.H) {
 			r.Skip = true
 			return r
 		}
